@@ -443,5 +443,23 @@ package txmgr
 //@   loop#1 invariant ret != nil && fresh(ret) && (forall qs_ string :: has(ret, qs_) ==> balOK(ret[qs_]))
 //@   loop#2 invariant ret != nil && fresh(ret) && (forall qs_ string :: has(ret, qs_) ==> balOK(ret[qs_]))
 //@   loop#2 invariant cred != nil && fresh(cred) && allocated(cred) && cred.block != nil && fresh(cred.block) && allocated(cred.block) && nsUnspent != nil && nsCredits != nil && iter != nil
+//@   loop#2 step[C01] cred.block.Height <= syncHeight && has(ret, strOf(cred.scriptHash)) && amt(curBal(ret, cred).Spendable) != old(amt(ret[cur(strOf(cred.scriptHash))].Spendable)) ==> consensusSpendable(cred.maturity, cred.block.Height, syncHeight) && cred.flags.Class == ClassStandardUtxo && !poolSpent(txpool, cred)
+//@   loop#2 step[C01] cred.block.Height <= syncHeight && has(ret, strOf(cred.scriptHash)) && amt(curBal(ret, cred).WithdrawableStaking) != old(amt(ret[cur(strOf(cred.scriptHash))].WithdrawableStaking)) ==> consensusSpendable(cred.maturity, cred.block.Height, syncHeight) && cred.flags.Class == ClassStakingUtxo && !poolSpent(txpool, cred)
+//@   loop#2 step[C01] cred.block.Height <= syncHeight && has(ret, strOf(cred.scriptHash)) && amt(curBal(ret, cred).WithdrawableBinding) != old(amt(ret[cur(strOf(cred.scriptHash))].WithdrawableBinding)) ==> consensusSpendable(cred.maturity, cred.block.Height, syncHeight) && cred.flags.Class == ClassBindingUtxo && !poolSpent(txpool, cred)
+//@   loop#2 step[C17] has(ret, strOf(cred.scriptHash)) && amt(curBal(ret, cred).Spendable) != old(amt(ret[cur(strOf(cred.scriptHash))].Spendable)) ==> consensusSpendable(cred.maturity, cred.block.Height, syncHeight)
+//@   loop#2 step[C17] has(ret, strOf(cred.scriptHash)) && amt(curBal(ret, cred).WithdrawableStaking) != old(amt(ret[cur(strOf(cred.scriptHash))].WithdrawableStaking)) ==> consensusSpendable(cred.maturity, cred.block.Height, syncHeight)
+//@   loop#2 step[C17] has(ret, strOf(cred.scriptHash)) && amt(curBal(ret, cred).WithdrawableBinding) != old(amt(ret[cur(strOf(cred.scriptHash))].WithdrawableBinding)) ==> consensusSpendable(cred.maturity, cred.block.Height, syncHeight)
 
 //@ define balOK(p) = (p != nil && fresh(p) && allocated(p) && validAmt(p.Total) && validAmt(p.Spendable) && validAmt(p.WithdrawableStaking) && validAmt(p.WithdrawableBinding))
+
+// consensus rule (mass-core blockchain/validate.go checkTxInMaturity, chain.go SequenceLockActive): an output created
+// at height h with maturity / relative lock m may be spent by block n iff n >= h and n - h >= m; the next block
+// after a wallet synced to `sync` has height sync+1.
+//@ define consensusSpendable(m, h, sync) = (mathint(sync) + 1 >= mathint(h) && mathint(sync) + 1 - mathint(h) >= mathint(m))
+//@ define curBal(ret, cred) = ret[strOf(cred.scriptHash)]
+//@ define poolSpent(pool, cred) = ghostb("poolSpent", pool, strOf(cred.outPoint.Hash), cred.outPoint.Index)
+
+// L4 soundness half, per iteration: an amount is added to Spendable / WithdrawableStaking / WithdrawableBinding only
+// for a credit of that class that consensus lets the next block spend and the mempool does not spend.
+// [C01]: in the quiescent state (the credit is not newer than the sync height); [C17]: for ANY relation between the
+// caller's sync height and the stored height (a query racing with block processing reads them at different times).
